@@ -775,7 +775,8 @@ impl<'r> Eng<'r> {
             (StoreOkAddr, _) => vec!["C09"],
             (StoreOkDel, Stats) | (StoreOkDel, Query) => vec!["C17", "C11"],
             (StoreOkDel, _) => if foreign_to_actor { vec!["C10"] } else { vec!["C11"] },
-            (StoreOkPlain, Retr) => vec!["C04", "C17"],
+            // (C18: ephemeral kinds store Ok but are never retrievable)
+            (StoreOkPlain, Retr) => vec!["C04", "C17", "C18"],
             (StoreOkPlain, _) => vec!["C17"],
             (OpKind::Table, _) => vec!["C16"],
         }
